@@ -275,6 +275,10 @@ def judge_recording(ctx, sc, ant, el, be, backend, stem, op, user_cards, used_de
                 ok = isinstance(h[k], int) and h[k] == v
             elif k == "TBIN":
                 ok = isinstance(h[k], (int, float)) and _close(h[k], v, rel=2e-14)
+            elif k == "OBSFREQ":
+                # a sum of fch1 and a channel offset that may nearly cancel: judged at the precision of its operands
+                scale = max(abs(ant["fch1"]), abs(v * 1e6 - ant["fch1"]), abs(v * 1e6), 1.0) * 1e-6
+                ok = isinstance(h[k], (int, float)) and abs(h[k] - v) <= 8 * math.ulp(scale)
             else:
                 ok = isinstance(h[k], (int, float)) and _close(h[k], v, ulps=8)
             if not ok:
